@@ -86,7 +86,57 @@ def run(ctx, res):
         check_moves(res, cfg, lib)
         check_char_units(res, cfg, lib)
     check_content(ctx, res)
+    check_unit_mix(ctx, res)
     res.exhaustive = True
+
+
+def check_unit_mix(ctx, res):
+    """U2: characters and bytes are never mixed in the editor: in every method of `Editor` (linear domain, every path),
+    no comparison, slice index or bounds check combines a character count (the cursor, a `char_count` result) with a byte
+    quantity (`valid`, lengths, capacities, byte offsets), `char_byte_index` is never given a byte quantity as character
+    index, and at every exit the cursor holds a character quantity and `valid` a byte quantity."""
+    from .. import absint
+    from . import C03
+    lib = lib_crate(ctx.crates('default'))
+    old = absint.WIDEN_AT
+    absint.WIDEN_AT = 16
+    try:
+        rule = C03.E3(lib, {}, {})
+        inv, keymap = C03.inventory(lib)
+        rule.keymap = keymap
+        n = 0
+        for f in session.methods_of(lib, 'editor::Editor'):
+            if f.kind != 'AssocFn' or f.body['arg_count'] < 1 or f.body['locals'][1]['ty'].get('k') != 'ref':
+                continue
+            for label, selfv, facts in C03.editor_entries(Interp([lib], rule)):
+                I = Interp([lib], rule, max_worlds=60000)
+                rule.ctx = 'Editor::' + f.name
+                args, _ = C03.sym_args(rule, f, ('ref', (-1, 0, ())))
+                exits = I.run(f, args, facts, {(-1, 0): selfv})
+                n += 1
+                ci_, vi_ = I.field_index('editor::Editor', 'cursor'), I.field_index('editor::Editor', 'valid')
+                for w, rv in exits:
+                    ed = w.store[(-1, 0)]
+                    cur, val = C03.L(ed[3][ci_]), C03.L(ed[3][vi_])
+                    bad_c = cur is not None and [a for a, k in cur[0] if a.startswith(C03.BYTE_UNIT)]
+                    bad_v = val is not None and [a for a, k in val[0] if a.startswith(C03.CHAR_UNIT)]
+                    res.oblige("U2|exit|%s|%s|%s" % (f.name, cur, val), not bad_c and not bad_v,
+                               violation=None if not (bad_c or bad_v) else dict(
+                                   rule='C05.units-mixed', key="C05|units-mixed|%s|exit" % f.npath,
+                                   msg="%s leaves %s: the cursor counts characters and `valid` counts bytes" % (
+                                       f.npath, ("cursor = a byte quantity (%s)" % ", ".join(bad_c)) if bad_c else
+                                       ("valid = a character quantity (%s)" % ", ".join(bad_v)))))
+        seen = set()
+        for fnp, what, ch, by in rule.mixed:
+            seen.add(fnp)
+            res.oblige("U2|mix|%s|%s|%s|%s" % (fnp, what, ch, by), False, violation=dict(
+                rule='C05.units-mixed', key="C05|units-mixed|%s|%s" % (fnp, what),
+                msg="%s: a %s combines a character quantity (%s) with a byte quantity (%s); they agree only for one-byte characters"
+                    % (fnp, what, ", ".join(ch) or '-', ", ".join(by))))
+        res.oblige("U2|methods-analysed|%d" % n, n >= 8, violation=None if n >= 8 else dict(
+            rule='ANCHOR', key="C05|units-mixed|anchor", msg="only %d Editor methods analysed for unit consistency" % n))
+    finally:
+        absint.WIDEN_AT = old
 
 
 def check_content(ctx, res):
